@@ -417,7 +417,9 @@ class TaskShuffle(SimpleShuffle):
             if stage == (stages - 1) and npartitions == npartitions_input:
                 name = self._name
                 parts_out = self._partitions
-                _filter = parts_out if self._filtered else None
+                # groups of a staged shuffle are keyed by stage digits, not by
+                # output partition numbers, so they must not be filtered
+                _filter = None
             else:
                 name = f"stage-{stage}-{self._name}"
                 _filter = None
